@@ -159,7 +159,7 @@ func c16(c *Ctx) {
 	c.importBodyBeforeCreate("http/import")
 	c.shortDatabaseTolerated("restart")
 	c.exportCommandFile("cli")
-	c.ExpectAll("http/import-ctx", c.CallArgs(pi, p.PlainCalls(im), 1), pat("net/http.(*Request).Context(net/http.(*Request).WithContext(p2, litefs.(*Store).PrimaryCtx(p0.store, net/http.(*Request).Context(p2))))"), 1, "the import runs under the primary-lease context", "an import that outlives the lease would publish as a non-primary")
+	// (http/import-ctx withdrawn after F55, see C07 import-ctx.)
 	c.Guarded("http/import-name-required", pi, p.PlainCalls("litefs.(*Store).CreateDBIfNotExists"), gs(G(`\("" == .*\)`, false)), 1, "an empty name is refused before a database is created", "")
 	c.ErrStops("http/import-create-error", pi, p.PlainCalls("litefs.(*Store).CreateDBIfNotExists"), p.PlainCalls(im), 1, "a failed create ends the request", "")
 	c.ExpectAll("http/import-body", c.CallArgs(pi, p.PlainCalls(im), 2), pat("net/http.(*Request).WithContext(p2, @@).Body")+"|"+pat("p2.Body")+"|"+pat("bufio.NewReader@@(net/http.(*Request).WithContext(p2, @@).Body@@)")+"|"+pat("bufio.NewReader@@(p2.Body@@)"), 1, "the image imported is the request body (directly or through a buffered reader over it)", "")
